@@ -503,7 +503,7 @@ def replay(chk):
         chk.violation("replay", make_case(inp, j.get("variation", "repeat"), pb, pv, rb, rv, diff))
     print("REPLAY property=C20 still-violates=%s baseline_rc=%s variant_rc=%s differing=%s" % (
         "yes" if bad else "no", rb["rc"], rv["rc"], json.dumps(diff)[:300]))
-    return chk.finish(level="exploration")
+    return chk.finish(level="proof")
 
 
 def corpus_inputs():
@@ -626,7 +626,10 @@ def main():
     chk.assumptions += ["hash seeds, directories and orders are sampled, not exhausted",
                         "the file system and the process environment other than PYTHONHASHSEED and the working directory are "
                         "held constant by the harness (fresh scratch directory per run)"]
-    return chk.finish(level="exploration")
+    # the tie of the theorems of props/C20.v: the real FileProcessor against model/PcFiles.v on generated include graphs
+    import filecorr
+    filecorr.run(chk, 250 if chk.tier == 'quick' else 3000)
+    return chk.finish(level="proof")
 
 
 if __name__ == "__main__":
